@@ -49,6 +49,11 @@ var c13classes = []c13class{
 	{"invalid-json", func(ip string, p int) string { return `{"ip":"10.0.` }, []string{"json"}, "both"},
 	{"not-an-object", func(ip string, p int) string { return `["10.0.0.1",80]` }, []string{"json"}, "both"},
 	{"blank-line", func(ip string, p int) string { return `` }, []string{"json"}, "both"},
+	// two defects in one line are still one entry: one error record (either cause may be stated)
+	{"empty-object", func(ip string, p int) string { return `{}` }, []string{"ip", "port"}, "ipport"},
+	{"both-bad", func(ip string, p int) string { return `{"ip":"10.0.0.300","port":65536}` }, []string{"ip", "port"}, "ipport"},
+	{"both-empty", func(ip string, p int) string { return `{"ip":"","port":0}` }, []string{"ip", "port"}, "ipport"},
+	{"unknown-fields-only", func(ip string, p int) string { return `{"host":"10.0.0.1","dport":80}` }, []string{"ip", "port"}, "ipport"},
 	{"over-long-line", func(ip string, p int) string {
 		return fmt.Sprintf(`{"ip":"%s","port":%d,"pad":"%s"}`, ip, p, c13long)
 	}, []string{"toolong"}, "both"},
